@@ -166,9 +166,27 @@ def apply_op(ctx, w, op):
     class _O:
       def event(self, where):
         pass
+
+      def observe(self, where):
+        pass
     st = {"probe": w.x}
+    # A QActivation configured with a STRING serialises that string, so a
+    # factor between 0 and 1 cannot survive a restart there (the property
+    # speaks of trained models); everywhere else the live quantizer object is
+    # serialised, so the schedule may also be interrupted half-way.
+    has_string_act = any(
+        type(l).__name__ == "QActivation" and isinstance(l.activation, str)
+        for l in w.model.layers)
+    steps = 3 + int(op.get("steps", 3))
+    if op.get("stop_mid") and not has_string_act:
+      cbspec = dict(cbspec, start=0, finish=6, use_ste=bool(op.get(
+          "use_ste", True)))
+      cb = p_c07.build_callback(cbspec)
+      cb.set_model(w.model)
+      steps = 1 + int(op.get("steps", 3)) % 4
+      ctx.fault("scheduler_interrupted_mid_schedule")
     p_c07.run_fit_sim(ctx, w.model, cb, cbspec, _O(), {
-        "epochs": 1, "steps": 3 + int(op.get("steps", 3))}, st)
+        "epochs": 1, "steps": steps}, st)
     ctx.fault("scheduler_left_variable_knobs")
     set_phase(0)
     w.refresh()
@@ -298,7 +316,7 @@ def generate(rng):
   n = rng.randrange(2, 7)
   for _ in range(n):
     k = rng.wpick([("RESTART", 6), ("PERTURB", 2), ("READONLY", 1.5),
-                   ("SAVE_FAULT", 2.5), ("EXPORT", 0.8), ("SCHED", 0.6),
+                   ("SAVE_FAULT", 2.5), ("EXPORT", 0.8), ("SCHED", 1.0),
                    ("COMPILE", 0.5)])
     op = {"k": k}
     if k == "RESTART":
@@ -316,6 +334,8 @@ def generate(rng):
       op["keep"] = rng.chance(0.5)
     elif k == "SCHED":
       op["steps"] = rng.randrange(1, 5)
+      op["stop_mid"] = rng.chance(0.6)
+      op["use_ste"] = rng.chance(0.6)
     ops.append(op)
   if not any(o["k"] in ("RESTART", "SAVE_FAULT") for o in ops):
     ops.append({"k": "RESTART", "route": rng.wpick(ROUTE_W)})
@@ -415,6 +435,16 @@ def directed():
   out.append({"label": "directed:scheduler-then-restart", "seed": 1,
               "world": dense, "ops": [{"k": "SCHED", "steps": 2}] + [
                   {"k": "RESTART", "route": r} for r in M.ROUTES]})
+  sdense = _single({"t": "QDense", "units": 3, "use_bias": True,
+                    "kq": {"str": "quantized_bits(4,0,1)"},
+                    "bq": {"str": "quantized_bits(6,2,1)"},
+                    "aq": {"str": "quantized_relu(4,1)"}}, "vec")
+  for ste in (True, False):
+    out.append({"label": "directed:scheduler-interrupted-string-quantizers:"
+                         "ste%d" % ste, "seed": 1, "world": sdense,
+                "ops": [{"k": "SCHED", "steps": 2, "stop_mid": True,
+                         "use_ste": ste}] + [
+                             {"k": "RESTART", "route": r} for r in M.ROUTES]})
   out.append({"label": "directed:export-then-restart", "seed": 1,
               "world": dense, "ops": [{"k": "EXPORT"}] + [
                   {"k": "RESTART", "route": r} for r in M.ROUTES]})
